@@ -490,6 +490,23 @@ class Peg(object):
                 return one
             A, FA = one
             return union(A, L.marker_at_start(FA)), L.empty()
+        if k == "paths":
+            # imperative parser explored path by path: the paths are mutually exclusive (they differ in the outcome of
+            # an `opt`), so ordered choice over them is exact
+            r = self.den(p.args[0])
+            for a in p.args[1:]:
+                r = self.alt2(r, self.den(a))
+            return r
+        if k == "repeat_till":
+            lo, hi = p.extra
+            if lo != 0 or hi is not None:
+                raise Inconclusive("repeat_till with range %r" % (p.extra,))
+            # loop: if the terminator matches stop, else the element must match
+            E = self.den(p.args[0])
+            T = self.den(p.args[1])
+            A, FA = T
+            notT = (self.L.marker_at_start(FA), diff(self.L.sigma_star(), FA))
+            return self.seq2(self.star(self.seq2(notT, E)), T)
         raise Inconclusive("combinator %s has no regular denotation here" % k)
 
 
@@ -600,6 +617,22 @@ def eval_peg(g, classes, p, w, i):
             e = eval_peg(g, classes, p.args[0], w, s)
             if e is None:
                 return j
+            j = e
+    if k == "paths":
+        for a in p.args:
+            j = eval_peg(g, classes, a, w, i)
+            if j is not None:
+                return j
+        return None
+    if k == "repeat_till":
+        j = i
+        while True:
+            t = eval_peg(g, classes, p.args[1], w, j)
+            if t is not None:
+                return t
+            e = eval_peg(g, classes, p.args[0], w, j)
+            if e is None or e == j:
+                return None
             j = e
     raise Inconclusive("direct evaluator: combinator %s" % k)
 
